@@ -82,7 +82,7 @@ func col(v int) openrgb.Color { return openrgb.Color{Red: byte(v >> 16), Green: 
 
 func ledName(key string) string { return device.KeyToLedName[evdev.KEYFromString[key]] }
 
-func layouts() map[string][]string {
+func layouts(tier string) map[string][]string {
 	note := []string{"KEY_A", "KEY_S", "KEY_D", "KEY_Z", "KEY_X", "KEY_Q"}
 	act := sortedKeys(actions)
 	names := func(keys ...string) []string {
@@ -97,7 +97,7 @@ func layouts() map[string][]string {
 	for i, j := 0, len(rev)-1; i < j; i, j = i+1, j-1 {
 		rev[i], rev[j] = rev[j], rev[i]
 	}
-	return map[string][]string{
+	ls := map[string][]string{
 		"actions-then-notes": append(names(all...), "Key: W", "Key: E"),
 		"reversed":           names(rev...),
 		"only-note-keys":     append([]string{"Key: W"}, names(note...)...), // no action key is lit; LED 0 is an unmapped key
@@ -105,6 +105,16 @@ func layouts() map[string][]string {
 		"unknown-names":      append(append([]string{"Logo", "Key: W"}, names(all...)...), "Underglow 1", "Key: E"),
 		"some-actions-missing": names("KEY_Z", "KEY_F2", "KEY_F6", "KEY_A", "KEY_S", "KEY_X", "KEY_ESC"),
 	}
+	if tier == "thorough" {
+		// every rotation of the full layout (each key takes each LED index once) and every layout with exactly one LED missing
+		for k := 1; k < len(all); k++ {
+			ls[fmt.Sprintf("rotated-%02d", k)] = names(append(append([]string{}, all[k:]...), all[:k]...)...)
+		}
+		for k := range all {
+			ls[fmt.Sprintf("without-%s", all[k])] = names(append(append([]string{}, all[:k]...), all[k+1:]...)...)
+		}
+	}
+	return ls
 }
 
 // ---- fake server + frame pick-up
@@ -577,7 +587,22 @@ func runLayout(res *vutil.Result, name string, leds []string, tier string) {
 			}
 		}
 		// indicators must distinguish the values
+		hasLED := func(action string) bool {
+			for _, l := range srv.leds {
+				for k, a := range actions {
+					if a == action && ledName(k) == l.Name {
+						return true
+					}
+				}
+			}
+			return false
+		}
 		distinct := func(m map[int]string, name string, vals ...int) {
+			// the up key shows the values above neutral, the down key those below: a value can only be told
+			// from the others when both keys of the pair have an LED in this layout
+			if !hasLED(name+"_up") || !hasLED(name+"_down") {
+				return
+			}
 			seen := map[string]int{}
 			for _, v := range vals {
 				s, ok := m[v]
@@ -650,7 +675,7 @@ func main() {
 	os.MkdirAll(filepath.Join(root, "sys/class/hidraw/hidraw0/device/input/input7/event3"), 0o755)
 	vsched.SysRoot = root
 	res := vutil.NewResult()
-	ls := layouts()
+	ls := layouts(*tier)
 	var names []string
 	for n := range ls {
 		names = append(names, n)
